@@ -245,6 +245,19 @@ def main():
 
     # 4./5. oracle (search when broken, standing test otherwise)
     oracle_fail = []
+    # fixed witnesses of recorded findings run first (a KNOWN-FINDING line is printed for each on every run)
+    for o in spec.get("corpus", []):
+        try:
+            r = o["fn"](None)
+        except Exception as e:  # noqa
+            from harness.common import Result
+            r = Result(o["name"], "oracle")
+            r.fail("corpus case crashed on the current tree", error=f"{type(e).__name__}: {e}"[:300],
+                   trace=traceback.format_exc()[-1500:], oracle=o["name"], input=None)
+        r.name = o["name"]
+        results.append(r)
+        for f in r.failures:
+            oracle_fail.append((o, f))
     for o in spec.get("oracle", []):
         budget = dict(o.get(tier, o.get("quick", {})))
         if broken:
